@@ -347,6 +347,10 @@ def translate_all():
                 inline.pop(k, None)
             t = Tr(sp["ty"], inline, sp.get("rename"))
             body = t.prop(expr) if sp["result"] == "Bool" else t.tr(expr)
+            recorded = set(FALLBACK[sp["name"]][0].strip("()").split(":")[0].split())
+            if set(t.params) != recorded:
+                # same computation over other local names cannot be matched with the proofs (they bind arguments by name)
+                raise Untranslatable(f"free variables {sorted(t.params)} differ from the recorded {sorted(recorded)}")
         except TableError as exc:
             sig, rty, body = FALLBACK[sp["name"]]
             STATUS[sp["name"]] = f"NOT TRANSLATED ({exc}); the definition is the recorded one, its theorems say nothing about the current source"
